@@ -91,7 +91,13 @@ def nonherm_adjoint_path(env, n, kind):
     An = cm.as_nested(env, A)
     # non-Hermitian: imaginary diagonal entry by a margin
     env.assume(An[0][0][1] * An[0][0][1] >= (Fraction(1, 100) if env.symbolic else 0.01), 'Im a_00 by a margin (not Hermitian)')
-    q, lam, res = U.power_iteration_nonhermitian(env.twist(A), max_iterations=1, res_tol=None)
+    try:
+        q, lam, res = U.power_iteration_nonhermitian(env.twist(A), max_iterations=1, res_tol=None)
+    except ValueError as e:
+        # |a| huge relative to its imaginary part: A is Hermitian within allclose's rtol, the fast path is taken
+        # and the all-zero Gaussian start (probability zero) is rejected loudly
+        env.holds('the only ValueError is the zero start vector', 'zero norm' in str(e))
+        return
     env.holds('vector shape (n,)', tuple(q.shape) == (n,))
     env.eq('unit quaternion vector', [sum((x * x for i in range(n) for x in [q[i].w, q[i].x, q[i].y, q[i].z]), 0)], [1])
 
